@@ -92,11 +92,16 @@ DevNamesNotResolved == "names-never-resolved"
 \*   becomes "[" and is judged as an external name, whatever the lists say about it.  Against T1 / T3.
 DevV6CutAtColon == "ipv6-literal-cut-at-colon"
 
+\* java, ts: LUNAR_ALLOW_LIST set to the empty string is an allow list with one (unsupported / never matching) item: nothing
+\*   is routed any more.  Against the README ("If the value is not empty, then the Interceptor will only forward requests to
+\*   domains which are in the Allow List ... If the value is empty, the Interceptor will check ... the LUNAR_BLOCK_LIST") and T5.
+DevEmptyAllowValue == "empty-allow-list-value-routes-nothing"
+
 FilterDevs(impl) ==
-    CASE impl = "java" -> {DevV6InternalRouted, DevItemsAsTyped, DevAllowItemRaises}
-      [] impl = "ts"   -> {DevNamesNotResolved, DevV6CutAtColon, DevItemsAsTyped}
+    CASE impl = "java" -> {DevV6InternalRouted, DevItemsAsTyped, DevAllowItemRaises, DevEmptyAllowValue}
+      [] impl = "ts"   -> {DevNamesNotResolved, DevV6CutAtColon, DevItemsAsTyped, DevEmptyAllowValue}
       [] OTHER         -> {}
 
 AllFailSafeDevs == {DevLegExceptionCounts, DevErrorResponseCountsTwice}
-AllFilterDevs == {DevV6InternalRouted, DevItemsAsTyped, DevAllowItemRaises, DevNamesNotResolved, DevV6CutAtColon}
+AllFilterDevs == {DevV6InternalRouted, DevItemsAsTyped, DevAllowItemRaises, DevNamesNotResolved, DevV6CutAtColon, DevEmptyAllowValue}
 =============================================================================
